@@ -54,6 +54,8 @@ pub enum Op {
 pub struct Ctl {
     calls: std::cell::Cell<u64>,
     fail_at: std::cell::Cell<Option<u64>>,
+    /// the reader has gone dead for good (a dropped connection): every I/O call fails from now on
+    dead: std::cell::Cell<bool>,
 }
 thread_local! {
     static LAST_CTL: std::cell::RefCell<Option<std::rc::Rc<Ctl>>> = const { std::cell::RefCell::new(None) };
@@ -67,6 +69,9 @@ impl FReader {
         FReader { cur: Cursor::new(data), ctl: Default::default() }
     }
     fn point(&self) -> std::io::Result<()> {
+        if self.ctl.dead.get() {
+            return Err(std::io::Error::new(std::io::ErrorKind::BrokenPipe, "this handle's reader is dead"));
+        }
         let n = self.ctl.calls.get();
         self.ctl.calls.set(n + 1);
         if self.ctl.fail_at.get() == Some(n) {
@@ -446,6 +451,38 @@ pub fn run(args: &Args) -> i32 {
         check_tuple(bytes_r, names_r, &[&all_r[a], &all_r[b], &all_r[c]], il3_r, &[&solos_r[a], &solos_r[b], &solos_r[c]], st, (1 << 60) | (t as u64) << 32, &[a, b, c]);
     });
     ctx.stats.merge(s);
+    // Clone::clone_from: a handle whose own reader has died is refreshed from a live handle of the same archive (and of another
+    // archive): afterwards it is a clone like any other - its reader is the source's, cloned
+    {
+        ctx.stats.evals += 2;
+        for same_archive in [true, false] {
+            let r = guard(|| -> Result<(), String> {
+                let a = zip::ZipArchive::new(FReader::new(bytes.clone())).map_err(|e| e.to_string())?;
+                let other_bytes = archive_layout(seed, 1).0;
+                LAST_CTL.with(|l| *l.borrow_mut() = None);
+                let mut b = if same_archive { a.clone() } else { zip::ZipArchive::new(FReader::new(other_bytes)).map_err(|e| e.to_string())?.clone() };
+                let ctl = LAST_CTL.with(|l| l.borrow_mut().take()).ok_or("no control block")?;
+                ctl.dead.set(true);
+                if b.by_index(0).is_ok() {
+                    return Err("harness: the dead reader still works".into());
+                }
+                b.clone_from(&a);
+                let mut want = vec![];
+                a.clone().by_index(1).map_err(|e| e.to_string())?.read_to_end(&mut want).map_err(|e| e.to_string())?;
+                let mut got = vec![];
+                b.by_index(1).map_err(|e| format!("by_index on the refreshed handle: {e}"))?.read_to_end(&mut got).map_err(|e| format!("read on the refreshed handle: {e}"))?;
+                if got != want || b.len() != a.len() || b.comment() != a.comment() {
+                    return Err("the refreshed handle reports other content / metadata than its source".into());
+                }
+                Ok(())
+            });
+            match r {
+                Ok(Ok(())) => ctx.stats.class("clone_from-gives-a-working-clone"),
+                Ok(Err(e)) => ctx.stats.viol("clones/clone_from", format!("a handle with a dead reader refreshed by clone_from (source: {} archive): {e}", if same_archive { "a handle of the same" } else { "a handle of another" }), json!({"clone_from": same_archive}), 0),
+                Err(p) => ctx.stats.viol(format!("clones/panic/{}", panic_site(&p)), p, json!({"clone_from": same_archive}), 0),
+            }
+        }
+    }
     // the same pairs on archives whose central directory is not in file order (reversed; rotated by three): what a handle
     // observes for entry k must not depend on which other entries any handle has located before
     for layout in [1u8, 2] {
